@@ -95,11 +95,47 @@ func baselinesOf(s *Subject, st *stats) []*baseline {
 		}
 		if g, err := newFrom(s, x.v); err == nil {
 			if b, werr, pan := implWriteTo(g); werr == nil && pan == "" {
-				add(x.n+"/WriteTo", x.v, append([]byte{}, b...))
+				// Go map iteration order is random: sort the entries of every MAP
+				// field so that the set of baselines is the same in every run
+				add(x.n+"/WriteTo", x.v, sortMapEntries(b))
 			}
 		}
 	}
 	return out
+}
+
+// sortMapEntries re-emits an encoding with the entries of every MAP field
+// ordered by the bytes of their keys (input that does not parse is returned
+// unchanged).
+func sortMapEntries(b []byte) []byte {
+	fields, err := ref.Parse(b)
+	if err != nil {
+		return append([]byte{}, b...)
+	}
+	var walk func(n *ref.Node)
+	walk = func(n *ref.Node) {
+		for _, k := range n.Kids {
+			walk(k)
+		}
+		if n.Type == ref.WMap && len(n.Kids) >= 4 {
+			type ent struct {
+				key  string
+				k, v *ref.Node
+			}
+			es := make([]ent, 0, len(n.Kids)/2)
+			for i := 0; i+1 < len(n.Kids); i += 2 {
+				es = append(es, ent{string(n.Kids[i].Bytes()), n.Kids[i], n.Kids[i+1]})
+			}
+			sort.SliceStable(es, func(i, j int) bool { return es[i].key < es[j].key })
+			for i, e := range es {
+				n.Kids[2*i], n.Kids[2*i+1] = e.k, e.v
+			}
+		}
+	}
+	for _, f := range fields {
+		walk(f)
+	}
+	return ref.EncodeNodes(fields)
 }
 
 // ---------------------------------------------------------------- well-formed field alphabet
@@ -415,7 +451,7 @@ func (c *c04) baselineOK(s *Subject, bl *baseline, st *stats) (TarsStruct, bool)
 		if o.kind != "" {
 			ok = false
 			mode := []string{"ReadFrom", "ReadBlock"}[i]
-			st.report("baseline:"+o.kind+":"+subjClass(s), len(bl.b), func() (string, Case) {
+			st.report("baseline:"+o.kind+":"+subjCoarse(s), len(bl.b), func() (string, Case) {
 				return c.mkCase(s, "baseline", mode, bl.label, bl.b, bl.b, nil, o.detail)
 			})
 		}
@@ -530,18 +566,26 @@ func (c *c04) judgeInsert(s *Subject, bl *baseline, g0 TarsStruct, ins []inserti
 		in = spliceIn(spliceIn(bl.b, ins[1].pos, ins[1].es.b), ins[0].pos, ins[0].es.b)
 	}
 	from, block := c.decodeBoth(s, in, bl.v, g0, st)
+	if len(ins) == 2 && (from.kind != "" || block.kind != "") {
+		// a pair is reported as such only when each insertion alone is harmless
+		for _, x := range ins {
+			f1, b1 := c.decodeBoth(s, spliceIn(bl.b, x.pos, x.es.b), bl.v, g0, st)
+			if f1.kind != "" || b1.kind != "" {
+				st.n["pairs_explained_by_a_single_insertion"]++
+				return
+			}
+		}
+	}
 	for i, o := range []outcome{from, block} {
 		if o.kind == "" {
 			continue
 		}
 		mode := []string{"ReadFrom", "ReadBlock"}[i]
-		// attribute to the inserted field (pairs: the later one decides only if the first is a plain scalar; keep the first)
-		blame := ins[0]
 		var parts []string
 		for _, x := range ins {
 			parts = append(parts, x.describe())
 		}
-		sig := blame.sig(o.kind)
+		sig := ins[0].sig(o.kind)
 		if len(ins) > 1 {
 			sig = "insert2:" + ins[0].es.sh.wire.String() + "+" + ins[1].es.sh.wire.String()
 		}
@@ -569,18 +613,38 @@ func (c *c04) runDelete(s *Subject, bl *baseline, st *stats) {
 				continue
 			}
 			st.n["cases_delete"]++
-			var alt *ref.Value
-			if want != nil && si.path == "" && m.Type.Kind == ref.KArray {
-				// An absent optional fixed array: the IDL says nothing about the
-				// elements' defaults; elements left at Go's zero value (struct
-				// elements without their member defaults) are accepted as well.
-				i, _ := s.Def.MemberByTag(m.Tag)
-				alt = want.Clone()
-				alt.Elems[i] = goZero(m.Type)
-			}
+			alt := arrayAlt(s, in, want)
 			c.judgeDelete(s, bl.b, in, want, alt, fmt.Sprintf("member %s%s.%s (tag %d, %s) removed", s.Def.Name, si.path, m.Name, m.Tag, optReq(m)), m, st)
 		}
 	}
+}
+
+// arrayAlt: for an absent optional fixed array the IDL says nothing about the
+// elements' defaults; elements left at Go's zero value (struct elements
+// without their member defaults) are accepted as well.  Returns want with
+// every absent optional top-level array member replaced that way, or nil.
+func arrayAlt(s *Subject, in []byte, want *ref.Value) *ref.Value {
+	if want == nil {
+		return nil
+	}
+	var alt *ref.Value
+	fields, err := ref.Parse(in)
+	if err != nil {
+		return nil
+	}
+	_, present, err := ref.FromNodes(s.Def, fields)
+	if err != nil {
+		return nil
+	}
+	for i, m := range s.Def.Members {
+		if m.Type.Kind == ref.KArray && !m.Require && !present[i] {
+			if alt == nil {
+				alt = want.Clone()
+			}
+			alt.Elems[i] = goZero(m.Type)
+		}
+	}
+	return alt
 }
 
 // goZero is the value a Go variable of the generated type has before anything
@@ -622,10 +686,7 @@ func (c *c04) judgeDelete(s *Subject, base, in []byte, want, alt *ref.Value, mut
 			sig = "delete-panic:"
 		}
 		if m != nil {
-			sig += memberClass(m.Type)
-			if m.Default != nil {
-				sig += "+default"
-			}
+			sig += staleClass(m)
 		}
 		st.report(sig, len(in), func() (string, Case) {
 			return c.mkCase(s, "delete", mode, mutation, base, in, nil, o.detail)
@@ -659,19 +720,32 @@ func staleMembers(def *ref.StructDef, fieldsB []*ref.Node, reused, fresh *ref.Va
 // fixed arrays and nested structs; "+default" marks a member with a declared
 // default (whose reset exists and failed).
 func staleClass(m *ref.Member) string {
-	c := "scalar"
-	switch m.Type.Kind {
-	case ref.KVector, ref.KMap:
-		c = "container"
-	case ref.KArray:
-		c = "array"
-	case ref.KStruct:
-		c = "struct"
-	}
+	c := coarseClass(m.Type)
 	if m.Default != nil {
 		c += "+default"
 	}
 	return c
+}
+
+func coarseClass(t *ref.Type) string {
+	switch t.Kind {
+	case ref.KVector, ref.KMap:
+		return "container"
+	case ref.KArray:
+		return "array"
+	case ref.KStruct:
+		return "struct"
+	}
+	return "scalar"
+}
+
+// subjCoarse: C04's class of a struct in signatures (single-member structs by
+// the member's coarse class, the others by corpus family).
+func subjCoarse(s *Subject) string {
+	if len(s.Def.Members) == 1 {
+		return coarseClass(s.Def.Members[0].Type)
+	}
+	return s.Family
 }
 
 func (c *c04) judgeReuse(s *Subject, a, b []byte, fieldsB []*ref.Node, st *stats) {
@@ -702,7 +776,7 @@ func (c *c04) judgeReuse(s *Subject, a, b []byte, fieldsB []*ref.Node, st *stats
 		st.n["impl_calls"] += 3
 		mode := md.name
 		if err != nil || pan != "" {
-			st.report("reuse:error:"+subjClass(s), len(a)+len(b), func() (string, Case) {
+			st.report("reuse:error:"+subjCoarse(s), len(a)+len(b), func() (string, Case) {
 				return c.mkCase(s, "reuse", mode, "decode A then B into the same struct", b, b, a, fmt.Sprintf("second decode fails: err=%v panic=%q", err, pan))
 			})
 			continue
@@ -720,7 +794,7 @@ func (c *c04) judgeReuse(s *Subject, a, b []byte, fieldsB []*ref.Node, st *stats
 			sig := "reuse-stale:" + staleClass(m)
 			st.report(sig, len(a)+len(b)+8*len(s.Def.Members), func() (string, Case) {
 				return c.mkCase(s, "reuse", mode, "decode A then B into the same struct", b, b, a,
-					fmt.Sprintf("optional member %s is absent in B; fresh decode of B gives %s, after decoding A first: %s", path, ref.Format(s.Type, vf), d))
+					fmt.Sprintf("optional member %s is absent in B; fresh decode of B gives %s, after decoding A first: %s", path, ref.Format(s.Type, vf), strings.TrimPrefix(d, ": ")))
 			})
 		})
 	}
@@ -850,29 +924,31 @@ func mainC04(reg Registry) {
 		excluded = len(corpus.Excluded)
 	}
 	cov := map[string]any{
-		"states":                        cases,
-		"transitions":                   nc["impl_calls"],
-		"traces_validated_against_impl": cases,
-		"evaluations":                   2 * cases,
-		"distinct_nontrivial":           nc["cases_insert1"] + nc["cases_insert2"] + nc["cases_delete"],
-		"programs":                      len(subjects),
-		"structs_by_family":             famStructs,
-		"baseline_encodings":            nb,
-		"cases_insert_single":           nc["cases_insert1"],
-		"cases_insert_pair":             nc["cases_insert2"],
-		"cases_delete":                  nc["cases_delete"],
-		"cases_reuse":                   nc["cases_reuse"],
-		"cases_baseline":                nc["cases_baseline"],
-		"cases_by_origin":               perPart,
-		"implementation_calls":          nc["impl_calls"],
-		"units":                         len(units),
-		"field_alphabet":                names,
-		"violating_cases_by_signature":  bySig,
-		"corpus_declarations_excluded":  excluded,
-		"bootstrap":                     bootFacts(),
-		"enumeration_s":                 time.Since(start).Seconds(),
-		"samples":                       samples,
-		"exhaustive":                    exhaustive,
+		"states":                            cases,
+		"transitions":                       nc["impl_calls"],
+		"traces_validated_against_impl":     cases,
+		"evaluations":                       2 * cases,
+		"distinct_nontrivial":               nc["cases_insert1"] + nc["cases_insert2"] + nc["cases_delete"],
+		"programs":                          len(subjects),
+		"structs_by_family":                 famStructs,
+		"baseline_encodings":                nb,
+		"cases_insert_single":               nc["cases_insert1"],
+		"cases_insert_pair":                 nc["cases_insert2"],
+		"cases_delete":                      nc["cases_delete"],
+		"cases_reuse":                       nc["cases_reuse"],
+		"cases_baseline":                    nc["cases_baseline"],
+		"failing_pairs_explained_by_single": nc["pairs_explained_by_a_single_insertion"],
+		"absent_optional_array_with_go_zero_elements_accepted": nc["accepted_alternative_default"],
+		"cases_by_origin":              perPart,
+		"implementation_calls":         nc["impl_calls"],
+		"units":                        len(units),
+		"field_alphabet":               names,
+		"violating_cases_by_signature": bySig,
+		"corpus_declarations_excluded": excluded,
+		"bootstrap":                    bootFacts(),
+		"enumeration_s":                time.Since(start).Seconds(),
+		"samples":                      samples,
+		"exhaustive":                   exhaustive,
 		"bounds": map[string]any{
 			"baseline_values":    "all-default, all-non-default and (two or more members) the two alternating mixes",
 			"baseline_encodings": "reference canonical, reference with explicit defaults, the implementation's own WriteTo; deduplicated by bytes",
@@ -912,6 +988,7 @@ func (c *c04) replay(run *common.Run, subjects []*Subject) {
 		run.InfraError("replay: unknown struct %q", cs.Subject)
 		run.Finish(nil, nil)
 	}
+	c.thorough = cs.Thorough
 	base, e1 := hex.DecodeString(cs.Base)
 	in, e2 := hex.DecodeString(cs.Input)
 	first, e3 := hex.DecodeString(cs.First)
@@ -942,7 +1019,7 @@ func (c *c04) replay(run *common.Run, subjects []*Subject) {
 	case "delete":
 		want, rerr := ref.Decode(s.Def, in)
 		fmt.Printf("  reference decoder: value=%s err=%v\n", ref.Format(s.Type, want), rerr)
-		from, block := c.decodeBoth(s, in, want, nil, st)
+		from, block := c.decodeBoth(s, in, want, nil, st, arrayAlt(s, in, want))
 		show(from, block)
 		for i, o := range []outcome{from, block} {
 			if o.kind != "" {
